@@ -20,6 +20,7 @@ later — the rules checked in the same loop with another class are shown not to
 -/
 import AutomataVerif.Props.C19
 import AutomataVerif.Proofs.CorruptOps2
+import AutomataVerif.Proofs.KwargsBridge
 
 namespace AV.Props.C19
 open AV AV.VA
@@ -568,7 +569,68 @@ theorem C19_gnfa_corrupt_end_state (g : GNFA σ α) (wf : g.WF) (kv : σ × List
   case transitionIntoInitial => exact (l5 hv').elim
   all_goals gnfa_outside_loop
 
+/-! ## D continued: the options theorem for the typed DFA validator on Python-value arguments
+
+`C19_options_kwargs` (Props/C19.lean) is stated for *any* validator that reads the abstract value
+of the keyword arguments.  Here the hypothesis is discharged for the DFA validator: the decoder
+from keyword arguments to the typed definition reads only the abstract value
+(`decodeDFA_normKw`, Proofs/KwargsBridge.lean), so the theorem applies to
+`DFA.validateDef ∘ decodeDFA`. -/
+
+/-- Constructor keyword arguments (Python values, containers of any kind — `set` or `frozenset`,
+`dict` or `frozendict`) that decode to a typed DFA definition `d` passing `validate`: under all
+four combinations of `should_validate_automata` / `allow_mutable_automata` the constructor
+succeeds, and what it stores (frozen or not) decodes to the same definition `d` — so every
+operation, being a function of the definition, gives the same answer. -/
+theorem C19_options_kwargs_dfa (kwargs : List (String × PyVal)) (d : DFA Atom Atom)
+    (hd : decodeDFA kwargs = some d) (hvalid : DFA.validateDef Reserved.atoms d = .ok ())
+    (shouldValidate allowMutable : Bool) :
+    ∃ stored, construct normKw (storeKwargs false) validateDFAKwargs false shouldValidate allowMutable
+        kwargs = .ok stored ∧ decodeDFA stored = some d := by
+  have hv : validateDFAKwargs (kwargs.map fun kv => (kv.1, kv.2.norm)) = .ok () := by
+    show validateDFAKwargs (normKw kwargs) = .ok ()
+    unfold validateDFAKwargs
+    rw [decodeDFA_normKw, hd]
+    exact hvalid
+  obtain ⟨stored, hs, heq⟩ := C19_options_kwargs validateDFAKwargs false kwargs hv shouldValidate allowMutable
+  refine ⟨stored, hs, ?_⟩
+  have : normKw stored = normKw kwargs := heq
+  rw [← decodeDFA_normKw stored, this, decodeDFA_normKw, hd]
+
+/-- An invalid definition: the same error under both values of `allow_mutable_automata`. -/
+theorem C19_options_kwargs_dfa_invalid (kwargs : List (String × PyVal)) (d : DFA Atom Atom)
+    (hd : decodeDFA kwargs = some d) (e : Exn) (hinvalid : DFA.validateDef Reserved.atoms d = .error e)
+    (allowMutable : Bool) :
+    construct normKw (storeKwargs false) validateDFAKwargs false true allowMutable kwargs = .error e := by
+  have hfz : ∀ c, normKw (storeKwargs false c) = normKw c := by
+    intro c
+    simp only [normKw, storeKwargs, List.map_map]
+    apply List.map_congr_left
+    intro kv _
+    simp [PyVal.norm_freeze]
+  have hv : validateDFAKwargs (normKw kwargs) = .error e := by
+    unfold validateDFAKwargs
+    rw [decodeDFA_normKw, hd]
+    exact hinvalid
+  exact (C19_options_invalid normKw (storeKwargs false) validateDFAKwargs hfz kwargs e hv allowMutable).1
+
 /-! ## non-vacuity -/
+
+/-- `DFA(states={"p","q"}, input_symbols={"a"}, transitions={"p": {"a": "q"}, "q": {"a": "q"}},
+initial_state="p", final_states={"q"})` with mutable containers … -/
+def exKwargs : List (String × PyVal) :=
+  [("states", .set [.str "p", .str "q"]), ("input_symbols", .set [.str "a"]),
+   ("transitions", .dict [(.str "p", .dict [(.str "a", .str "q")]), (.str "q", .dict [(.str "a", .str "q")])]),
+   ("initial_state", .str "p"), ("final_states", .set [.str "q"]), ("allow_partial", .int 0)]
+
+/-- … and as the constructor stores it (frozen): the same typed definition, which is valid. -/
+example : decodeDFA (storeKwargs false exKwargs) = decodeDFA exKwargs := by rfl
+example : (decodeDFA (storeKwargs false exKwargs)).map (DFA.validateDef Reserved.atoms) = some (.ok ()) := by
+  decide
+example : (decodeDFA exKwargs).map (DFA.validateDef Reserved.atoms) = some (.ok ()) := by decide
+/-- `None` among the states (the harness sends `None` as the object with tag 0) is refused. -/
+example : (decodeDFA (("states", .set [.str "p", .str "q", .other 0]) :: exKwargs.tail)).map
+    (DFA.validateDef Reserved.atoms) = some (.error (.lib .invalidStateError)) := by decide
 
 /-- a λ-move on stack symbol 0 added to the row of state 0, where input symbol 0 already moves on it -/
 example : (DPDA.setMove exDPDA 0 none 0 (1, [])).validateDef (· == 77) =
